@@ -59,6 +59,17 @@ CHECKS.update({
          "Every template tree of the scope (1.4e6 cases quick) as built by the factories, as produced by a partial fill, as produced by an ellipsis expansion and as produced by the SML parser: variable names read back from String() by an independent tokenizer of the printed form must equal Variables() in order, be distinct, ToBytes() must be non-empty iff there are no variables, Size() must equal the printed element count (-1 for an ASCII variable); each observer is repeated 8 (32) times to expose map-order dependence; all compared with the reference template as well.",
          "Go map iteration order is not controllable (repetition instead).", "5/C16"),
 })
+CHECKS.update({
+ "C11": ("explicit-state breadth-first search over API histories on the real objects (replay on fresh instances, canonical state key with reflective alias graph), invariant in every state",
+         "States are pools of live items/messages plus every slice/map the caller still holds (arguments passed in; slices returned by SystemBytes, ToBytes, Variables); transitions are real calls (SetWaitBit, SetSessionIDAndSystemBytes with fresh or held buffers, FillVariables with fresh or held maps, NewListNode over pooled items, NewHSMSDataMessage, NewDataMessage, NewHSMSControlMessage over a held header, response constructors, hsms.Parse over a held buffer) and in-place mutations of the held values (overwrite every element, write into spare capacity and append, map overwrite/delete/insert). From 6 initial pools, all histories to depth 3 (4 thorough) are explored breadth-first, 5e4 distinct canonical states quick; in every state every existing object must still show its creation snapshot (all observers) and observers must be idempotent.",
+         "Pool capped at 9 objects and 9 held values; a library call that writes into caller-held data without changing any item/message is not judged (the statement does not cover it).", "5/C11"),
+ "C17": ("stateless model checking: DFS over all interleavings of operation pairs with iterative preemption bounding on the statement-instrumented real code under a cooperative scheduler; separate free-running -race pass of the same bodies",
+         "A go/ast instrumenter (rebuilt from the current tree on every run, go build -overlay, /repo untouched) inserts a scheduling point before every statement of the three packages (1584 points) and makes map iteration deterministic; for all 120 unordered pairs of a 15-operation alphabet on shared objects (String, ToBytes, Variables, Size, value and ellipsis fills, Header, SetWaitBit, SetSessionIDAndSystemBytes, SystemBytes, Type, NewListNode over shared children, both parsers, a response constructor) every interleaving with at most 1 preemption (quick; 2 where a*b*(a+b) <= 2.5e8 in thorough; pairs whose cost exceeds the budget are completed at bound 0 and reported as such) is executed; every call must return what it returns alone, shared objects and package-level variables are digested at every point of the single-thread runs and after every schedule; replaying a schedule twice must give identical traces. The same bodies run free under -race (GOMAXPROCS=4, cold start + 3 launch patterns x 20 repetitions; thorough: all 455 triples).",
+         "Statement granularity; memory-model effects are delegated to the race detector. Map iteration order is fixed to sorted keys in the scheduler pass.", "5/C17"),
+ "C18": ("explicit-state breadth-first search over producer histories on the real messages vs. a record model (R-msg)",
+         "From 180 initial messages (wait bit x function parity x session x item x name x direction) all histories of SetWaitBit(true|false), SetSessionIDAndSystemBytes(5 ids x 6 buffer lengths) and FillVariables(every sub-assignment, unknown keys, a rejected value) to depth 3 (4 thorough) are explored breadth-first (successor = replay on a fresh object + one call), 3e5 transitions quick; after every transition all eleven observables are compared with the record updated only in the named fields, acceptance must agree with the record model, the receiver must be unchanged and the result must pass the constructor's validity rules.",
+         "", "5/C18"),
+})
 NA = {}
 hooks_commits = subprocess.run(["git", "-C", "/repo", "log", "--format=%H", "--grep=^verif hook"], capture_output=True, text=True).stdout.split()
 m = {
